@@ -316,7 +316,10 @@ func executeRace(t *testing.T, prop string, seed uint64, p *RacePlan) *core.Resu
 	if p.CancelNs > 0 {
 		relAt += p.CancelNs
 	}
-	endAt := relAt + (n+2)*(maxD+int64(time.Millisecond)) + int64(time.Second)
+	// after the release every remaining target may still take a full Timeout
+	// (Dial may legitimately still be running: it cannot return while every
+	// worker is stuck in an attempt that ignores its context)
+	endAt := relAt + (n+2)*(int64(p.timeout())+int64(p.delay())+maxD+int64(time.Millisecond)) + int64(time.Second)
 
 	var logs []*repLog
 	var canon []string
